@@ -61,7 +61,7 @@ def r_apply_step(ctx):
     for st, kind in U.assigns_to_attr(P, f, R.lastApplied):
         if any(x is st for x in ast.walk(loop)):
             n = U.node_containing(cfg, st)
-            ok_inc = kind == 'aug' and isinstance(st.op, ast.Add) and isinstance(st.value, ast.Constant) and st.value.value == 1
+            ok_inc = U.increment_amount(P, f, st, R.lastApplied) == 1
             if not ok_inc:
                 ctx.violation('%s:applied-index-step' % f.qualname, f.loc(st), 'the applied index is changed by `%s`, not advanced by one' % unparse(st),
                               instance='step is +1')
@@ -309,6 +309,29 @@ def r_commit_gate(ctx):
             else:
                 ctx.violation('%s:commit-above-leader-commit' % h.qualname, h.loc(st),
                               'the follower commit index is set to `%s`, not bounded by the leader\'s commit index' % unparse(st.value), instance=inst3)
+            # ... and never past the index this message verified: a local that is non-None only behind the gate / install
+            all_fs = res.facts_at(n.id)
+            cands = set()
+            for l in (all_fs[0] if all_fs else ()):
+                if l[0] == 'none' and not l[2] and l[1].key.isidentifier() and all(l in f2 for f2 in all_fs):
+                    cands.add(l[1].key)
+            for fs in all_fs[:1]:
+                for L in sorted(cands):
+                    if True:
+                        defs = [d for d in U.walk_no_nested(h.node) if isinstance(d, ast.Assign) and any(isinstance(t, ast.Name) and t.id == L for t in d.targets)
+                                and not (isinstance(d.value, ast.Constant) and d.value.value is None)]
+                        if not defs or any(res_avoid.reached(U.node_containing(cfg, d).id) for d in defs):
+                            continue
+                        inst4 = 'commit index write `%s` bounded by the verified index `%s`' % (unparse(st), L)
+                        lt_ = ex.tb.term(ast.Name(id=L, ctx=ast.Load()))
+                        okb = _is_min_with(st.value, ex, res, n, L) or all(oracle.entails(f2, ('le', ex.tb.term(st.value), lt_)) for f2 in res.facts_at(n.id))
+                        ctx.tick()
+                        if okb:
+                            ctx.ok(inst4, h.loc(st), 'value is min(.., %s) / entailed <= %s' % (L, L))
+                        else:
+                            ctx.violation('%s:commit-past-verified-index' % h.qualname, h.loc(st),
+                                          'the follower commit index is set to `%s`, which is not bounded by `%s` (the last index this message proved to match the leader): '
+                                          'entries of a stale suffix beyond it can be committed and executed' % (unparse(st.value), L), instance=inst4)
     ctx.expect_min(2)
 
 
